@@ -22,6 +22,7 @@ Proved here, for *arbitrary* tables (no consistency assumed beyond the stated ra
   before it would have refused the cycle;
 * `C11_setFat_no_panic`, `C11_reuse_no_panic`: with free-list entries inside the FAT the reuse
   branch of `allocate_sector` has no panic exit;
+* `C11_setMiniFat_no_panic`: `set_minifat` has no panic exit on any tables (F20);
 * `C11_free_mini_range`: `free_mini_sector` leaves only in-range indices on the mini free list
   (the pruning step), and `C11_popFreeMini_no_panic`: with in-range indices the pop loop of
   `allocate_mini_sector` has no panic exit — together: the index `minifat[free_idx]` is in range in
@@ -94,6 +95,53 @@ theorem C11_reuse_no_panic (p : P) (k : Init) (id : Nat) (hl : p.free.getLast? =
     | hang m => intro hc; cases hc
     | panic m => exact absurd h2 (C11_initSector_no_panic _ _ _ m)
     | ok p2 => intro hc; cases hc
+
+/-- a chain walk has no panic exit, on any table whatever -/
+theorem chainLoop_no_panic (fat : Array Nat) (first : Nat) : ∀ (fuel cur : Nat) (acc : List Nat) (s : String),
+    chainLoop fat first fuel cur acc ≠ .panic s := by
+  intro fuel
+  induction fuel with
+  | zero => intro cur acc s hc; simp [chainLoop] at hc
+  | succ fuel ih =>
+    intro cur acc s
+    unfold chainLoop
+    split
+    · intro hc; cases hc
+    · split
+      · split
+        · intro hc; simp [bad] at hc
+        · exact ih _ _ s
+      · intro hc; cases hc
+
+/-- **`set_minifat` on arbitrary tables**: with an index up to the in-memory MiniFAT's length (a free
+mini sector being reused, or the next one) there is no panic exit, whatever the MiniFAT chain
+looks like — cut short under the in-memory MiniFAT by an overlapping stream's truncation, cyclic,
+or running into free space: the cell beyond the chain is answered with `InvalidData` (F20: it was a
+debug assertion) -/
+theorem C11_setMiniFat_no_panic (p : P) (idx val : Nat) (h : idx ≤ p.miniFat.size) :
+    ∀ s, setMiniFat p idx val ≠ .panic s := by
+  intro s
+  unfold setMiniFat
+  cases hc : chainIds p p.miniFatStart with
+  | err e => intro hx; simp [bind, Outcome.bind] at hx
+  | hang m => intro hx; simp [bind, Outcome.bind] at hx
+  | panic m => exact absurd hc (chainLoop_no_panic _ _ _ _ _ m)
+  | ok chain =>
+    simp only [bind, Outcome.bind, pure]
+    split
+    · intro hx; cases hx
+    · split
+      · intro hx; cases hx
+      · split
+        · intro hx; cases hx
+        · omega
+
+/-- the defect as it was: a MiniFAT chain of one sector under an in-memory MiniFAT of 189 cells (the
+chain cut by the truncation of a stream that ran into it) — cell 189 is refused, not asserted -/
+def cutMiniFat : P :=
+  { (Phys.create false) with
+      fat := #[FATSECT, END, END], numSectors := 3, miniFatStart := 2, miniFat := Array.replicate 189 END }
+example : (match setMiniFat cutMiniFat 189 END with | .err .invalidData => true | _ => false) = true := by decide
 
 /-- `free_mini_sector` prunes the mini free list to the (possibly shortened) MiniFAT -/
 theorem C11_free_mini_range {p p' : P} {id : Nat} (h : freeMiniSector p id = .ok p') :
